@@ -1,6 +1,7 @@
 package c20
 
 import (
+	"bytes"
 	"fmt"
 	"testing"
 
@@ -109,6 +110,35 @@ func checkDesc(c *pbt.Ctx, cs DescCase) {
 	}
 	read("shuffled-bytes", shuf)
 
+	// ---- unknown fields at every level: a lenient read returns the same value; a strict read fails, leaves the
+	// reader's buffer as it was, and the same reader object rewound to the start then reads leniently like a fresh one
+	withUnknown := pmodel.InjectUnknown(md, cs.Msg, cs.Shuffle)
+	if len(withUnknown) != len(cs.Msg) {
+		if _, err := pmodel.Unmarshal(md, withUnknown); err != nil {
+			c.Failf("harness-unknown", "message with injected unknown fields is rejected by the reference: %v", err)
+		}
+		src := append(make([]byte, 0, len(withUnknown)+16), withUnknown...)
+		q := binary.NewBinaryProtol(src)
+		c.Step("ReadAnyWithDesc with-unknown-fields, disallowUnknown")
+		if _, rerr := q.ReadAnyWithDesc(desc, false, true, true, cs.UseFieldName); rerr == nil {
+			c.Failf("unknown-accepted", "ReadAnyWithDesc(disallowUnknown) accepts a message with undeclared fields: %x", withUnknown)
+		}
+		if len(q.Buf) != len(withUnknown) || !bytes.Equal(q.Buf, withUnknown) {
+			c.Failf("reader-buffer-changed", "after a rejected read the reader's buffer is %d bytes, it was given %d", len(q.Buf), len(withUnknown))
+		}
+		q.Read = 0
+		c.Step("lenient ReadAnyWithDesc with the same reader, rewound")
+		got, rerr := q.ReadAnyWithDesc(desc, false, true, false, cs.UseFieldName)
+		if rerr != nil {
+			c.Failf("read-error:after-rejected-read", "ReadAnyWithDesc(%x) after a rejected strict read: %v", withUnknown, rerr)
+		}
+		if ok, why := pmodel.DynGoEqual(got, want); !ok {
+			c.Failf("read-mismatch:after-rejected-read", "ReadAnyWithDesc after a rejected strict read differs at %s\n got  %v\n want %v\n bytes %x", why, got, want, withUnknown)
+		}
+		read("with-unknown-fields", withUnknown)
+		c.Class("unknown-fields-injected")
+	}
+
 	// ---- write (the writer iterates over Go maps: its field order varies from call to call, so write twice)
 	for rep := 0; rep < 2; rep++ {
 		val := pmodel.ToDynGo(ref, cs.UseFieldName, cs.MapForm)
@@ -133,7 +163,7 @@ func checkDesc(c *pbt.Ctx, cs DescCase) {
 
 var DescProp = pbt.Register(pbt.Prop[DescCase]{
 	Name: "TestDescRoundTrip",
-	Rule: "generated proto3 schema (all scalar kinds, enums, nested/recursive messages, repeated, maps of every key kind) + reference-generated message; Go value in dynamicgo's documented shape written with WriteAnyWithDesc must be accepted by the reference as the same message; ReadAnyWithDesc of the reference bytes and of the written bytes must return the Go value; both field-name and field-number addressing; non-trivial = message with a repeated/map/message field",
+	Rule: "generated proto3 schema (all scalar kinds, enums, nested/recursive messages, repeated, maps of every key kind) + reference-generated message; Go value in dynamicgo's documented shape written with WriteAnyWithDesc must be accepted by the reference as the same message; ReadAnyWithDesc of the reference bytes and of the written bytes must return the Go value; both field-name and field-number addressing; the message with undeclared fields injected at every level reads to the same value leniently, is rejected under disallowUnknown, and the rejected read leaves the reader's buffer intact (the same reader rewound reads like a fresh one); non-trivial = message with a repeated/map/message field",
 	Gen: func(t *rapid.T) DescCase {
 		sc := pmodel.GenSchema(t, pmodel.GenOpts{AllKinds: rapid.Bool().Draw(t, "allKinds")})
 		comp, err := pmodel.Compile(sc.Render(), sc.Main)
